@@ -33,7 +33,7 @@ GRAPH_ATTR = [
     (r"^(bypass|keep_only|keep_between)$", r".*", ["C18"]),
     # what the queries are specified against is what the user declared: an edit call that
     # records something else breaks them too
-    (r"^(requires|add|update|remove)$", r".*", ["C19", "C17"]),
+    (r"^(requires|add|update|remove)$", r".*", ["C19", "C17", "C15"]),
     (r"^(display|scan)$", r".*", ["C15", "C17", "C20"]),
     (r"^list$", r"^list-", ["C15", "C20"]),
 ]
